@@ -20,7 +20,7 @@ ASSUMPTIONS = ['limits integer-valued in the stated range; the summand is an arb
 BOUNDS = {'quick': 'limits in [-12,12] both orders x even_odd 0,1,2; infinite limits with cutoff 3..6; end-to-end with samples 2',
           'thorough': 'limits in [-20,20]; cutoffs up to 10'}
 OUTSIDE = ['IntegralGrader (scipy absent)', 'vector-valued summands', 'IEEE rounding of long sums', 'convergence of infinite sums (cutoff semantics only)']
-DEADLINE = {'quick': 150, 'thorough': 1500}
+DEADLINE = {'quick': 600, 'thorough': 1500}
 FUNCS = ['SumGrader.perform_summation', 'SumGrader.evaluate_sum', 'SumGrader.gen_evaluations', 'SummationGraderBase.check/raw_check/structure_and_validate_input/'
          'validate_user_dummy_variable/get_limits_and_funcs', 'MathMixin.compare_evaluations/consolidate_results', 'expressions.evaluator', 'AbstractGrader.__call__']
 STUBS = ['SymSampler', 'summand f(n): uninterpreted function in symbolic mode, 2**n in concrete replay']
